@@ -661,6 +661,8 @@ class Collection(object):
         num_updated = 0
         num_matched = 0
         for existing_document in itertools.chain(self._iter_documents(spec), [None]):
+            # Every matched document gets its own copy of the values the update carries.
+            document = helpers.patch_datetime_awareness_in_document(document)
             # we need was_insert for the setOnInsert update operation
             was_insert = False
             # the sentinel document means we should do an upsert
